@@ -320,6 +320,17 @@ class RefMut:
         fr[self.lid] = updated
 
 
+class Sl:
+    """A slice &[T] = the first `len` elements (symbolic length) of a fixed array of values."""
+    __slots__ = ("fs", "len")
+
+    def __init__(self, fs, length):
+        self.fs, self.len = tuple(fs), length
+
+    def __repr__(self):
+        return f"Sl({len(self.fs)} elems, len={self.len})"
+
+
 class LazySt:
     """A struct whose fields are produced on demand by `provider(exec, struct type, field index, field
     type)` - used for large zero-copy state structs of which a function reads a few fields.  The
@@ -758,6 +769,9 @@ class Exec:
         return n
 
     def sym_int(self, name, ty):
+        if ty == "int":            # unbounded mathematical integer (specification-only ghost values)
+            self.decls.append(f"(declare-const {name} Int)")
+            return I(name, ty)
         lo, hi = int_range(ty)
         self.decls.append(f"(declare-const {name} Int)")
         self.decls.append(f"(assert (and (<= {smt(lo)} {name}) (<= {name} {smt(hi)})))")
@@ -826,7 +840,7 @@ class Exec:
         if is_c(b) and b > 0 and alo is not None and alo >= 0:
             # consequences of the defining constraint just asserted (unconditional for a positive constant b);
             # registered only now, so that the constraint itself is not folded away
-            set_bound(q, 0, ahi // b if ahi is not None else None)
+            set_bound(q, alo // b, ahi // b if ahi is not None else None)
             set_bound(r, 0, b - 1)
         return q, r
 
@@ -1044,7 +1058,11 @@ class Exec:
             v = edges[-1][1].get(k)
             for p, s in reversed(edges[:-1]):
                 v = vite(p, s.get(k), v)
+            if isinstance(v, I) and isinstance(v.t, str) and len(v.t) > 400:
+                v = I(self.name_term(v.t, "phi"), v.ty)          # keep merged values a DAG
             st[k] = v
+        if isinstance(pc, str) and len(pc) > 400:
+            pc = self.name_term(pc, "pc", "Bool")
         return pc, st
 
     # ---- blocks ----------------------------------------------------------------------------------
@@ -1222,7 +1240,7 @@ class Exec:
             return Opq(c)
         if c == "()":
             return UNIT
-        m = re.match(rf"^({_INT})::(MAX|MIN)$", c)
+        m = re.match(rf"^(?:core::num::<impl )?({_INT})>?::(MAX|MIN)$", c)
         if m:
             lo, hi = PRIMS[m.group(1)]
             return I(hi if m.group(2) == "MAX" else lo, m.group(1))
@@ -1581,7 +1599,7 @@ class Exec:
 
     def check_drop(self, v, item):
         """Dropping integers / plain data is a no-op; anything else has drop glue we do not model."""
-        if v is None or isinstance(v, (I, Bv, Opq, Ref, RefMut, LazySt)):
+        if v is None or isinstance(v, (I, Bv, Opq, Ref, RefMut, LazySt, Sl)):
             return
         if isinstance(v, (Tup, St)):
             for f in v.fs:
